@@ -8,7 +8,7 @@ only = sys.argv[2:]  # optional ids like C03-s2
 offset = int(os.environ.get('SEED_OFFSET', '0'))  # round 2 of sub-agent seeds: SEED_OFFSET=2 gives -s3 / -s4
 def run(cmd, cwd=None, extra=None, inp=None):
     e = dict(env); e.update(extra or {})
-    p = subprocess.run(cmd, cwd=cwd, env=e, capture_output=True, text=True, input=inp)
+    p = subprocess.run(cmd, cwd=cwd, env=e, capture_output=True, text=True, errors='replace', input=inp)
     return p.returncode, p.stdout + p.stderr
 for pdir in sorted(glob.glob(os.path.join(src, 'C??'))):
     prop = os.path.basename(pdir)
